@@ -30,11 +30,60 @@
 #include "configfile.h"
 #include "configuration.h"
 
+#include <ctype.h>
 #include <dlfcn.h>
 #include <stddef.h>
 #include <stdio.h>
 #include <stdlib.h>
 #include <string.h>
+
+
+
+/*
+ * Does the value need to be enclosed in double quotes in order to survive being
+ * read back from a config file?
+ *
+ * The INI parser strips leading/trailing whitespace and one pair of enclosing
+ * quotes, and treats a ';' right after the separator's blank as a comment.
+ */
+static int valueNeedsQuoting (const char * const value)
+{
+    size_t valueLen = strlen(value);
+
+    if (valueLen == 0) {
+        return 0;
+    }
+    if (isspace((unsigned char) value[0]) || isspace((unsigned char) value[valueLen-1])) {
+        return 1;
+    }
+    if (value[0] == ';') {
+        return 1;
+    }
+    if (((value[0] == '"') || (value[0] == '\'')) && (value[valueLen-1] == value[0])) {
+        return 1;
+    }
+    return 0;
+}
+
+
+
+/*
+ * Does the value contain what the INI parser takes for the start of an inline
+ * comment (whitespace followed by ';')? Such a value can only be given on a
+ * continuation line, which is taken verbatim.
+ */
+static int valueNeedsContinuationLine (const char * const value)
+{
+    if (value[0] == '\0') {
+        return 0;
+    }
+    for (size_t i = 1 ; value[i] != '\0' ; i++) {
+        if ((value[i] == ';') && isspace((unsigned char) value[i-1])) {
+            return 1;
+        }
+    }
+    return 0;
+}
 
 
 
@@ -71,7 +120,13 @@ int snoopy_cli_action_conf ()
     optionRegistry = snoopy_configfile_optionRegistry_getAll_ptr();
     for (int i=0 ; 0 != strcmp(optionRegistry[i].name, "") ; i++) {
         char * optionValue = snoopy_configfile_optionRegistry_getOptionValueAsString_ptr(optionRegistry[i].name);
-        printf("%s = %s\n", optionRegistry[i].name, optionValue);
+        if (valueNeedsContinuationLine(optionValue)) {
+            printf("%s =\n    %s\n", optionRegistry[i].name, optionValue);
+        } else if (valueNeedsQuoting(optionValue)) {
+            printf("%s = \"%s\"\n", optionRegistry[i].name, optionValue);
+        } else {
+            printf("%s = %s\n", optionRegistry[i].name, optionValue);
+        }
         free(optionValue);
     }
 
